@@ -136,6 +136,8 @@ pub fn create_raw_dict_from_source<R: io::Read, W: io::Write>(
         source
             .read_to_end(&mut buf)
             .expect("Could not read from source");
+        // The dictionary must not be bigger than requested
+        buf.truncate(dict_size);
         output.write_all(&buf).expect("Could not write to output");
         return;
     }
@@ -192,12 +194,24 @@ pub fn create_raw_dict_from_source<R: io::Read, W: io::Write>(
         "create_dict: {epoch_counter} epochs written, writing {} segments",
         pool.len()
     );
+    // The dictionary must not be bigger than requested.
+    // Drop the lowest scoring segments until the rest fits.
+    let mut pool_size: usize = pool.iter().map(|segment| segment.0.raw.len()).sum();
+    while pool_size > dict_size && pool.len() > 1 {
+        if let Some(segment) = pool.pop() {
+            pool_size -= segment.0.raw.len();
+        }
+    }
     // Write the dictionary with the highest scoring segment last because
     // closer items can be represented with a smaller offset
+    let mut remaining_size = dict_size;
     while let Some(segment) = pool.pop() {
+        // Only relevant if even the best segment on its own is bigger than the requested size
+        let len = usize::min(segment.0.raw.len(), remaining_size);
         output
-            .write_all(&segment.0.raw)
+            .write_all(&segment.0.raw[..len])
             .expect("can write to output");
+        remaining_size -= len;
     }
 }
 
